@@ -2018,6 +2018,11 @@ def check(ctx):
     _rule3(ctx, rep, setup)
     _rule4(ctx, rep)
     _rule5(ctx, rep)
+    from . import shared
+
+    shared.borrow(ctx, rep, [
+        ('c18', lambda m: m._rule_accepts(ctx, rep), 'the outcome of a failed run is recorded in the history only if the chronicle accepts the entry whatever the values of its fields'),
+    ])
     return rep
 
 
